@@ -25,4 +25,7 @@ CLAIMS.update({
     "C11": dict(text="The hostile, fault, error and rejection corpora are replayed with panics recovered and the ResponseWriter mimicking net/http; TLC checks no panic, one response head, a frameable body on every recorded trace.", note=STREAM_NOTE + " 'All byte strings' is covered as abstract hostile classes with sampled bytes; wedging is covered by the flow family (C16)."),
     "C18": dict(text="TLC enumerates the rejection catalogue of validate/resolveMethod/classifyRequest/handle x client forms and all exit paths; TLC checks on the recorded traces at most one dispatch, none for rejected requests, context cancelled at return, no reads or writes afterwards.", note=STREAM_NOTE),
 })
+CLAIMS["C08"] = dict(text="spec/Framing.tla models envelopingReader at byte grain with the buffer size and the client's chunk size chosen afresh at every step, so TLC visits every segmentation (and every cut point) of short streams on the five request adapter paths and checks that the handler receives exactly the canonical re-framing; TLC-enumerated body-chunk / read-buffer / write-size / flush patterns are replayed on the real code for every pairing and TLC checks that each observation equals the un-chunked reference run's.", note=STREAM_NOTE + " The byte-grain model covers the request side; the response side is covered by replay only.", engine="tla-framing")
+ENGINES.append(dict(name="tla-framing", path="spec/Framing.tla spec/MCFraming.tla spec/framing_*.cfg", serves_properties=["C08", "C09"],
+                    kind_free_text="byte-grain TLA+ model of envelopingReader: all Read-buffer sizes x all client chunkings x all cut points; invariants canonical-prefix, clean-end-is-complete, cut-never-clean; liveness Terminates"))
 NOT_APPLICABLE = {}
